@@ -354,11 +354,48 @@ func (idx *MergeSetIndex) Open() error {
 	idx.cache = newIndexCache(idx.config.TSIDCacheSize, idx.config.SKeyCacheSize, idx.config.TagCacheSize,
 		idx.config.TagFilterCostCacheSize, idx.path, syscontrol.IsIndexReadCachePersistent(), idx.config.CacheCompressEnable)
 
+	// The caller seeds the tsid sequence from the wall clock; it may lag behind the tsids issued
+	// before the last close. Never hand out a tsid that is already stored.
+	if idx.indexBuilder != nil {
+		idx.indexBuilder.raiseSequenceID(idx.maxStoredSequence(idx.indexBuilder.logicalClock))
+	}
+
 	idx.StorageIndex.initQueues(idx)
 	idx.run()
 	idx.isOpen = true
 
 	return nil
+}
+
+// maxStoredSequence returns the largest sequence part (low five bytes) among the stored tsids
+// that carry the given logical clock in their high three bytes; 0 if there is none.
+func (idx *MergeSetIndex) maxStoredSequence(clock uint64) uint64 {
+	is := idx.getIndexSearch()
+	defer idx.putIndexSearch(is)
+	ts := &is.ts
+	kb := &is.kb
+	prefix := []byte{nsPrefixTSIDToKey, byte(clock >> 16), byte(clock >> 8), byte(clock)}
+	// exists(seq): a tsid with this clock and a sequence part >= seq is stored
+	exists := func(seq uint64) bool {
+		kb.B = append(kb.B[:0], prefix...)
+		kb.B = append(kb.B, byte(seq>>32), byte(seq>>24), byte(seq>>16), byte(seq>>8), byte(seq))
+		ts.Seek(kb.B)
+		// a tsid->key item is the namespace byte, the tsid and a non-empty series key
+		return ts.NextItem() && len(ts.Item) > 9 && bytes.HasPrefix(ts.Item, prefix)
+	}
+	if !exists(0) {
+		return 0
+	}
+	lo, hi := uint64(0), uint64(tsidSequenceMask)
+	for lo < hi {
+		mid := lo + (hi-lo+1)/2
+		if exists(mid) {
+			lo = mid
+		} else {
+			hi = mid - 1
+		}
+	}
+	return lo
 }
 
 func (idx *MergeSetIndex) bloomFilterEnable(tablePath string) (bool, error) {
